@@ -213,9 +213,41 @@ var strAlphabets = []string{
 // Str draws a string: "", 1 byte, multi-byte UTF-8, invalid UTF-8, threshold lengths, random.
 // maxLen caps the length (in bytes, approximately for multi-byte alphabets).
 func (r *Rand) Str(maxLen int) string {
-	switch r.Intn(12) {
+	switch r.Intn(13) {
 	case 0:
 		return ""
+	case 12:
+		// long multi-byte text: the number of characters and the number of bytes lie on
+		// different sides of a length-class threshold (253/254 bytes, 127/128, 255/256), e.g.
+		// 85..253 three-byte characters or 127..253 two-byte ones, optionally with an ASCII tail
+		// that puts the BYTE length exactly on a threshold
+		alpha := [][]rune{[]rune("가나다라마바사한글"), []rune("éüñßøåäö"), []rune("😀😁🙂"), []rune("aé한😀")}[r.Intn(4)]
+		n := []int{85, 86, 100, 127, 128, 200, 252, 253, 254, r.Range(64, 260)}[r.Intn(10)]
+		out := make([]rune, n)
+		for i := range out {
+			out[i] = alpha[r.Intn(len(alpha))]
+		}
+		t := string(out)
+		if r.Intn(3) == 0 {
+			for _, l := range []int{253, 254, 255, 256, 65535, 65536} {
+				if len(t) <= l && l-len(t) < 8 {
+					t += r.AsciiN(l - len(t))
+					break
+				}
+			}
+		}
+		if len(t) > maxLen {
+			// clip on a character boundary (cutting inside a character is case 2's and 3's job)
+			cut := 0
+			for i := range t {
+				if i > maxLen {
+					break
+				}
+				cut = i
+			}
+			t = t[:cut]
+		}
+		return t
 	case 1:
 		return string(rune('a' + r.Intn(26)))
 	case 2:
